@@ -94,6 +94,10 @@ def main():
         old = {}
         if os.path.exists(os.path.join(dst, "meta.json")):
             old = json.load(open(os.path.join(dst, "meta.json")))
+        # results of checks not rerun this time are kept
+        merged = dict(old.get("checks_" + tier, {})); merged.update(results)
+        meta["checks_" + tier] = merged
+        meta["caught_by"] = sorted(c for c, r in merged.items() if r["exit"] == 1)
         old.update(meta)
         json.dump(old, open(os.path.join(dst, "meta.json"), "w"), indent=1)
         print("KEPT %s: caught by %s" % (sid, meta["caught_by"]))
